@@ -139,6 +139,20 @@ def run(pid, tier, seed, replay=None):
         tv_states += pstates
         extra_traces = len(presults)
         note += "; " + pnote
+    if pid == "C18" and replay is None and not damaged:
+        # every stage of a pipeline starts with a clean signal state too
+        from . import api_scen, c_api
+        pscs = api_scen.fam_pipelines(seed, tier == "thorough")[::(2 if tier == "thorough" else 6)]
+        for j, x in enumerate(pscs):
+            if j % 2 == 0:
+                x["mask"] = [10, 15, 17, 2]   # the calling thread has signals blocked
+        presults, pstates, pblocks, pnote = c_api.run_api(pid, tier, seed, pscs, "C18pl")
+        pnew, pknown, pothers, _, _ = c_api.classify(pid, pscs, presults, pblocks, "C18_", "api")
+        new.extend(pnew)
+        known_hits.update(pknown)
+        tv_states += pstates
+        extra_traces += len(presults)
+        note += "; " + pnote
     if pid == "C06" and replay is None and not damaged:
         # the same observations for commands assembled through the Exec builder (what the child sees is C06's
         # subject whichever API built the command): the plain model of Builder.tla predicts argv / environ / cwd
